@@ -226,6 +226,7 @@ func Child(c *run.Ctx, name string) {
 		if gi%37 == 5 || gi%37 == 6 {
 			o.Big = true
 		}
+		o.TTLLabel = gi%4 == 1 || o.Big && gi%2 == 0
 		if r.Intn(8) == 0 {
 			o.Streams = 20 + r.Intn(30)
 		}
